@@ -112,6 +112,16 @@ Example C13_dispatch_nonvacuous :
   /\ dispatch C all_on "devlog" = Called "snoopy_output_devlogoutput" /\ dispatch C all_off "noop" = Called "snoopy_output_noopoutput".
 Proof. vm_compute. repeat split. Qed.
 
+(** a walk over a chain of filter names (filtering.c) runs exactly the own implementations of the elements that are enabled, in
+    order: a switched-off (unknown) name in front is skipped and neither ends the walk nor changes what the following names run *)
+Theorem C13_chain_skips_unknown : forall cfg elems,
+    chain_calls SENT (rc_flt C) cfg elems = map (impl_of Filter) (filter (enabled (rc_flt C) cfg) elems).
+Proof. intros cfg elems. generalize (chain_calls_spec SENT _ (wf_all Filter) cfg elems). now rewrite (kind_all Filter). Qed.
+Example C13_chain_nonvacuous :
+  chain_calls SENT (rc_flt C) (switch_off "SNOOPY_CONF_FILTER_ENABLED_only_tty" all_on) ["only_tty"; "exclude_uid"; "nosuch"; "only_uid"]
+  = ["snoopy_filter_exclude_uid"; "snoopy_filter_only_uid"].
+Proof. vm_compute. reflexivity. Qed.
+
 (** the registries are used only by the format expansion, the filter chain, the `output` option parser and the message dispatch,
     through doesNameExist / callByName / dispatch only: ids never leave the registries and no data source, filter or output
     implementation calls back into a registry (its meaning would then depend on other features' switches) *)
@@ -195,6 +205,7 @@ Print Assumptions C13_names_NoDup.
 Print Assumptions C13_guards_match.
 Print Assumptions C13_model_meets_spec.
 Print Assumptions C13_callers_known.
+Print Assumptions C13_chain_skips_unknown.
 Print Assumptions C13_dispatch_is_call.
 Print Assumptions C13_dispatch_own.
 Print Assumptions C13_dispatch_off_is_unknown.
